@@ -117,16 +117,119 @@ func flip(op token.Token) token.Token {
 }
 
 // metricEmits returns the metric emissions (field name → instructions) executed on a path.
+// A call to a small module-local helper that emits the same metrics on each of
+// its return paths counts as those emissions (the call instruction stands for them).
 func metricEmits(p *an.Path) map[string][]ssa.CallInstruction {
 	out := map[string][]ssa.CallInstruction{}
 	p.Instrs(func(in ssa.Instruction) {
-		if ci, ok := in.(ssa.CallInstruction); ok {
-			if name, ok := an.MetricCall(ci.Common()); ok {
-				out[name] = append(out[name], ci)
+		ci, ok := in.(ssa.CallInstruction)
+		if !ok {
+			return
+		}
+		if name, ok := an.MetricCall(ci.Common()); ok {
+			out[name] = append(out[name], ci)
+			return
+		}
+		if callee := an.StaticCallee(ci.Common()); callee != nil && load.InModule(callee) {
+			for name, n := range emissionSummary(callee, 0) {
+				for i := 0; i < n; i++ {
+					out[name] = append(out[name], ci)
+				}
 			}
 		}
 	})
 	return out
+}
+
+var emitSummaries = map[*ssa.Function]map[string]int{}
+
+// emissionSummary returns the metric emissions a loop-free helper performs on
+// every return path (nil when paths differ, the helper loops, or it emits nothing).
+func emissionSummary(fn *ssa.Function, depth int) map[string]int {
+	if s, ok := emitSummaries[fn]; ok {
+		return s
+	}
+	emitSummaries[fn] = nil
+	if fn.Blocks == nil || depth > 2 || !inlineLoopFree(fn) || len(fn.Blocks) > 12 {
+		return nil
+	}
+	// quick reject: no metric call reachable syntactically
+	any := false
+	for _, b := range fn.Blocks {
+		for _, in := range b.Instrs {
+			if ci, ok := in.(ssa.CallInstruction); ok {
+				if _, ok := an.MetricCall(ci.Common()); ok {
+					any = true
+				}
+				if callee := an.StaticCallee(ci.Common()); callee != nil && callee != fn && load.InModule(callee) && emissionSummary(callee, depth+1) != nil {
+					any = true
+				}
+			}
+		}
+	}
+	if !any {
+		return nil
+	}
+	var common map[string]int
+	first := true
+	okAll := true
+	// enumerate block paths (no SEE needed)
+	var walk func(b *ssa.BasicBlock, acc map[string]int, seen map[*ssa.BasicBlock]bool)
+	walk = func(b *ssa.BasicBlock, acc map[string]int, seen map[*ssa.BasicBlock]bool) {
+		if seen[b] {
+			okAll = false
+			return
+		}
+		seen[b] = true
+		defer delete(seen, b)
+		cur := map[string]int{}
+		for k, v := range acc {
+			cur[k] = v
+		}
+		for _, in := range b.Instrs {
+			if ci, ok := in.(ssa.CallInstruction); ok {
+				if name, ok := an.MetricCall(ci.Common()); ok {
+					cur[name]++
+				} else if callee := an.StaticCallee(ci.Common()); callee != nil && callee != fn && load.InModule(callee) {
+					for k, v := range emissionSummary(callee, depth+1) {
+						cur[k] += v
+					}
+				}
+			}
+		}
+		if len(b.Succs) == 0 {
+			if _, isRet := b.Instrs[len(b.Instrs)-1].(*ssa.Return); !isRet {
+				return // panic exit
+			}
+			if first {
+				common, first = cur, false
+			} else if !sameCounts(common, cur) {
+				okAll = false
+			}
+			return
+		}
+		for _, s := range b.Succs {
+			walk(s, cur, seen)
+		}
+	}
+	walk(fn.Blocks[0], map[string]int{}, map[*ssa.BasicBlock]bool{})
+	if !okAll || len(common) == 0 {
+		return nil
+	}
+	emitSummaries[fn] = common
+	return common
+}
+
+func sameCounts(a, b map[string]int) bool {
+	if len(a) != len(b) {
+		return false
+	}
+	for k, v := range a {
+		if b[k] != v {
+			return false
+		}
+	}
+	return true
 }
 
 // callsOnPath returns calls on the path for which pred holds.
